@@ -1085,7 +1085,7 @@ SPECS["C03"] = _client_only(
 
 SPECS["C02"] = {
     "pid": "C02",
-    "coq_targets": ["Properties/C02.vo", "Checks/C02check.vo"],
+    "coq_targets": ["Properties/C02.vo", "Checks/C02check.vo", "Checks/C02alt.vo"],
     "parts": [{
         "name": "wake",
         "harness": "cliw",
@@ -1101,6 +1101,21 @@ SPECS["C02"] = {
                 "live task to a fixpoint; request buffer 1..3, in-flight limit 1..3, capacity 0..3; non-trivial = a caller "
                 "was actually resolved (reply, deadline, connection or shutdown error) or a cancellation was written during "
                 "some settle; distinct = distinct script text",
+    }, {
+        "name": "wake-alt",
+        "harness": "cliw",
+        "run_args": ["--order", "alt"],
+        "cases_header": HDR.format(mods="Transport Client ClientS ClientWake Checks.C02alt"),
+        "case_term": lambda c: f"({c['cfg']}, {c['ops']}, {c['obs']})",
+        "quick": {"count": 400},
+        "thorough": {"count": 20000},
+        "nontrivial": has("done:reply", "done:deadline", "done:connerr", "done:shutdown", "wire-cancel"),
+        "rule": "the same wake-driven scripts under a SECOND fair schedule: in a Settle the woken call futures are polled "
+                "first, in descending index order, the dispatch last. The quiet state legitimately depends on the order "
+                "(which queued call gets the free slot), so nothing is compared with the model (verdict bit 0 is never "
+                "set): the C02 monitor, which only uses what a schedule-independent observer sees (who resolved, whether "
+                "something is in flight, whether every delivered response was read), decides on the real trace; "
+                "non-trivial and distinct as in part wake",
     }],
     "trusted_base": COMMON_TB + CLIENT_TB + [
         "wake-driven harness (harness/src/cli.rs `settle`): per-task wake flags; the scripted transport wakes whoever its "
@@ -1126,9 +1141,11 @@ SPECS["C02"] = {
                   "handler-internal tasks are scripted futures.",
     "design_ref": "DESIGN.md section 6 (C02), section 0",
     "assumptions": ["a spurious wakeup is always allowed", "fewer than 2^64 operations",
-                    "the wake-driven runs follow ONE fixed fair schedule (woken tasks are polled in a fixed order until "
-                    "nothing is woken); that the quiet state does not depend on the schedule is neither proved nor "
-                    "tested (AUDIT.md round 2, F15)",
+                    "the theorems about wake-driven runs are for ONE fixed fair schedule (dispatch first, then calls in "
+                    "index order, until nothing is woken); the real client is additionally run under a second schedule "
+                    "(part wake-alt: calls in descending order first, dispatch last) and judged by the monitor alone; "
+                    "other schedules, and schedule independence on the server side, are neither proved nor tested "
+                    "(AUDIT.md round 2, F15)",
                     "request buffer and in-flight limit >= 1"],
 }
 
